@@ -14,7 +14,7 @@ ASAN  := $(COMMON) -O1 -fsanitize=address -fno-omit-frame-pointer -DSIM_BUILD_NA
 TLS   := $(COMMON) -O1 -DRLBOX_EMBEDDER_PROVIDES_TLS_STATIC_VARIABLES -DSIM_BUILD_NAME='"tls"'
 LIBS := -lpthread -ldl
 
-TARGETS := apptoken mem callback callback.tls invoke toctou toctou.asan
+TARGETS := apptoken mem callback callback.tls invoke toctou toctou.asan bulk bulk.asan
 
 all: $(addprefix $(B)/,$(TARGETS))
 
@@ -36,6 +36,11 @@ $(B)/invoke: worlds/invoke.cpp $(B)/guestlib.o $(GUESTSO) $(HDRS) $(SIMH) | $(B)
 $(B)/toctou: worlds/toctou.cpp $(HDRS) $(SIMH) | $(B)
 	$(CXX) $(PLAIN) $< -o $@ $(LIBS) -Wl,--wrap=malloc
 $(B)/toctou.asan: worlds/toctou.cpp $(HDRS) $(SIMH) | $(B)
+	$(CXX) $(ASAN) $< -o $@ $(LIBS) -Wl,--wrap=malloc
+
+$(B)/bulk: worlds/bulk.cpp $(HDRS) $(SIMH) | $(B)
+	$(CXX) $(PLAIN) $< -o $@ $(LIBS) -Wl,--wrap=malloc
+$(B)/bulk.asan: worlds/bulk.cpp $(HDRS) $(SIMH) | $(B)
 	$(CXX) $(ASAN) $< -o $@ $(LIBS) -Wl,--wrap=malloc
 
 $(B)/%: worlds/%.cpp $(HDRS) $(SIMH) | $(B)
